@@ -357,12 +357,63 @@ def diff(rec: Recorder) -> dict:
     return compare(rec, run_driver(rec.lines))
 
 
+def search_failing_input(ck, m, prop, tries=48):
+    """A model/implementation disagreement was seen in the run `m['replay']`.
+    Look for an input on which the REAL code violates the property (decided by
+    the direct oracles): continuations of prefixes of that run under other
+    schedules, and fresh schedules of the same scenario."""
+    import random
+    import re
+    from harness import runtime_check as rc
+    rp = m.get('replay')
+    if not rp or 'scenario' not in rp:
+        return None
+    sc = rc.scenario_from_json(rp['scenario'])
+    sched = [tuple(x) for x in rp['schedule']]
+    known = [e for e in ck.known.get('entries', [])
+             if e.get('status') == 'finding' and e.get('property') == prop]
+    rng = random.Random(ck.seed * 7919 + len(sched))
+    for k in range(tries):
+        cut = 0 if k % 4 == 3 else rng.randint(max(0, len(sched) // 3),
+                                               len(sched))
+        try:
+            sim, V, stats, st = rc.run_one(sc, rp['run_seed'] + 1 + k,
+                                           schedule=sched[:cut], cont=True)
+        except RuntimeError:
+            continue
+        hit = None
+        for (p_, sig, what, d) in V.items:
+            if p_ != prop:
+                continue
+            if any(re.fullmatch(e['signature'], sig) for e in known):
+                continue
+            hit = (sig, what)
+            break
+        schedule = sim.schedule()
+        sim.dispose()
+        if hit:
+            return {'oracle': hit[0], 'what': hit[1],
+                    'replay': {'scenario': sc, 'run_seed': rp['run_seed'] + 1 + k,
+                               'schedule': schedule}}
+    return None
+
+
 def report(ck, agg, prop):
     mm = agg.get('model', {})
     ck.coverage['traces_validated_against_impl'] = (
         agg['runs'] - mm.get('bad_runs', 0))
     ck.coverage['model_transitions_compared'] = mm.get('transitions', 0)
     for m in mm.get('mismatch', [])[:1]:
+        found = search_failing_input(ck, m, prop)
+        if found:
+            ck.violation(
+                'correspondence:network-model',
+                'real run and Lean network model disagree at transition '
+                f'{m["at"]} ({m.get("line")}); searching from that run: '
+                f'[{found["oracle"]}] {found["what"]}',
+                {'broken': 'correspondence runtime', 'oracle': found['oracle'],
+                 **found['replay']}, found_input=True)
+            continue
         ck.violation(
             'correspondence:network-model',
             'real run and Lean network model disagree at transition '
